@@ -170,6 +170,12 @@ func (d *db) id() string {
 
 func (d *db) createNewLog() error {
 	if d.mu.logFile != nil {
+		// records already written to the current log file may still be waiting
+		// for the sync() call of their writers, which will reach the new log
+		// file once it is switched, make them durable first
+		if err := d.mu.logFile.Sync(); err != nil {
+			return err
+		}
 		if err := d.mu.logFile.Close(); err != nil {
 			return err
 		}
